@@ -8,6 +8,7 @@ import (
 	mbits "math/bits"
 	"strconv"
 	"strings"
+	"unsafe"
 
 	typ "gopkg.in/typ.v4"
 	"pgregory.net/rapid"
@@ -934,13 +935,16 @@ func abbrevQ(s string) string {
 	return fmt.Sprintf("%q...%q (%d bytes)", s[:24], s[len(s)-24:], len(s))
 }
 
+// rawBytes views the bytes of a string without copying (read-only use).
+func rawBytes(s string) []byte { return unsafe.Slice(unsafe.StringData(s), len(s)) }
+
 func runString[T ~string](c Wide, wt *wtype) pbt.Outcome {
 	n := len(c.Strs)
 	args := mkArgs(c.View, n, T(""), T("\xff\xff\xff"))
 	out := pbt.Outcome{Labels: []string{"fn:" + c.Fn, "type:" + c.Type, "kind:string", "args=" + argsClass(n)}}
 	out.Labels = append(out.Labels, c.View.labels(16)...)
 	// reference order: bytes.Compare on the raw bytes
-	cmp := func(a, b string) int { return bytes.Compare([]byte(a), []byte(b)) }
+	cmp := func(a, b string) int { return bytes.Compare(rawBytes(a), rawBytes(b)) }
 	hasEmpty, related := false, false
 	for i, s := range c.Strs {
 		args[i] = T(s)
@@ -1531,11 +1535,11 @@ var specWide = pbt.Register(&pbt.Spec[Wide]{
 		"copies/neighbours of earlier arguments; NaN never generated). References: math/big exact arithmetic reduced modulo 2^bits, strconv and math/big decimal strings, " +
 		"same-order IEEE loops in the concrete type, bytes.Compare; Min/Max judged by validity (an argument, <=/>= all). " +
 		"A quarter of the drawn Min/Max/Sum/Product calls pass their arguments as s... where s is a window into a larger buffer (0..3 elements before, 0..33 elements of spare capacity after, " +
-		"all poisoned with type extremes / +-Inf / \"\" and \"\\xff\\xff\\xff\" so that reading outside s[:len(s)] changes the result). One case in 8 is also run as 4 parallel independent copies. " +
+		"all poisoned with type extremes / +-Inf / \"\" and \"\\xff\\xff\\xff\" so that reading outside s[:len(s)] changes the result). One case in 16 is also run as 4 parallel independent copies. " +
 		"non-trivial = some integer argument at or next to a type extreme or +-10^k; some float (part) that is +-0, +-Inf, +-Max, subnormal/smallest normal or within an ulp of +-10^k; " +
 		"strings: an empty argument or two arguments where one is a prefix of (or equal to) the other",
 	Enum: enumWide,
 	Gen:  genWide,
-	Run:  RunWide, Quick: 150000, Thorough: 400000,
-	Replicas: 4, ReplicaEvery: 8,
+	Run:  RunWide, Quick: 60000, Thorough: 400000,
+	Replicas: 4, ReplicaEvery: 16,
 })
